@@ -68,6 +68,19 @@ def run(ctx):
             ctx.violation("c18-secret-in-log:" + leak.split(" in: ")[0], "a log line contains a secret: " + leak[:600],
                           {"mode": "proxyerr", "config": {k: d[k] for k in ("redis", "sso", "id_token_header", "upstream_failure")}, "leak": leak[:2000]})
         all_msgs |= set(d["messages"] or [])
+    # (a'') the cookie / store-value substitution matrix of the C09 driver: cookies sealed under another deployment's key, other cookie
+    # types, truncations, bit flips, damaged store values - every presented value is a credential somewhere and must not be logged
+    pre = ctx.path("logs-crypto")
+    vf.run_driver(["crypto", "-out", pre, "-seed", str(ctx.seed), "-tier", "quick"])
+    for line in open(pre + ".obs"):
+        d = json.loads(line)
+        if d.get("kind") != "logscan":
+            continue
+        total_entries += d["entries"]
+        ctx.evals += 1
+        for leak in d["leaks"] or []:
+            ctx.violation("c18-secret-in-log:" + leak.split(" in: ")[0], "a log line contains a secret: " + leak[:600], {"mode": "crypto-swap-matrix", "redis": d["redis"], "leak": leak[:2000]})
+        all_msgs |= set(d["messages"] or [])
     # (b) login / callback flows (PAR, private-key client authentication, every callback failure)
     for mode in ("login", "callback"):
         pre = ctx.path("logs-auth-" + mode)
